@@ -1,6 +1,8 @@
 def nontrivial(c):
     ops = [l.split(" ")[1] for l in c["lines"] if l.startswith("op ")]
     obs = [l for l in c["lines"] if l.startswith("obs ")]
+    if "agstop" in ops:          # agent history: Stop requested while the usage loop had something to do or to wait for
+        return any("calls=" in o and "calls=0" not in o for o in obs) or any("loc=pending" in o or "loc=sent" in o for o in obs)
     accepted = any(o.startswith(("obs buf", "obs q ", "obs fw", "obs drop")) for o in obs)
     return "stop" in ops and "txstop" in ops and accepted
 
@@ -8,8 +10,8 @@ SPEC = dict(
     property="C36",
     component="shutdown",
     props_module="Refinery.Props.C36",
-    quick=dict(cases=240, len=18, shards=4),
-    thorough=dict(cases=9600, len=30, shards=16),
+    quick=dict(cases=400, len=18, shards=4),
+    thorough=dict(cases=12800, len=30, shards=16),
     nontrivial=nontrivial,
     rule="a history of ingestion operations (span arrivals local/peer with 1-3 ns between them, ticks of one SendTicker "
          "period, sendTraces steps, direct EnqueueEvent calls, stale-batch ticks, at most one worker made busy) is generated "
@@ -17,7 +19,13 @@ SPEC = dict(
          "EVERY prefix (the crash points); each case = one prefix + a shutdown sequence (66 % Stop, transmission Stop, goroutine "
          "profile; the rest: data arriving after the stops, transmission stopped first, double stops, clocks running between "
          "the stops, Agent.Stop). Runs on a real InMemCollector + real DirectTransmission + in-process fake Honeycomb. "
-         "non-trivial = at least one span was accepted before both components were stopped; distinct by transcript hash",
+         "Half of the histories are AGENT histories instead: the agent's two background loops (started as connect() does) with a "
+         "scripted OpAMP client (0-4 SendCustomMessage outcomes: accepted / pending, channel open or already closed, failure; "
+         "then failure), 3-10 events of usage recorded / usage ticker fires / client reports the message sent, cut at every "
+         "prefix and followed by Agent.Stop (so Stop also arrives while a report is pending or waiting to complete, with or "
+         "without a tick queued). "
+         "non-trivial = at least one span was accepted before both components were stopped, resp. (agent) the usage loop had "
+         "called the client or was waiting on it before Stop; distinct by transcript hash",
     trusted_base=[
         "clockwork.FakeClock (two instances: collector, transmission)",
         "harness accessors zz_verif_shutdown.go (collect, transmit, agent): park workers with the code's pause channel, "
@@ -25,7 +33,8 @@ SPEC = dict(
         "recording wrapper around DirectTransmission (serialises EnqueueEvent calls, stalls the sendTraces goroutine for 5 ms during Stop)",
         "net/http + httptest (fake Honeycomb), tinylib/msgp (decoding the batches)",
         "the sampler: DeterministicSampler rate 1 (keep) / RulesBasedSampler 'drop everything' (drop), chosen per trace by the case header",
-        "runtime.Stack goroutine dumps (goroutine leftovers and the healthCheck state are observations, not theorems)",
+        "runtime.Stack goroutine dumps (goroutine leftovers; where the agent's loops are blocked: function names and wait state)",
+        "scripted OpAMP client + hand-fired capacity-1 ticker for the agent histories (the real opamp-go client is not run)",
     ],
     manifest=dict(
         text="Lean theorems over all schedules of span arrivals, ticks, sendTraces steps, enqueues, batch ticks with Stop of the "
@@ -35,9 +44,10 @@ SPEC = dict(
              "at Stop every accepted span is forwarded iff kept, everything waiting in tracesToSend is forwarded before Stop "
              "returns, full accounting of every accepted span after Stop, DirectTransmission.Stop dispatches every accepted event "
              "and nothing stays pending, enqueue after Stop = panic (nil map, batchMutex left locked) then block for ever, AddSpan "
-             "after Stop = panic; the full statement is proved for the proposed repair (fixed = true); Agent.healthCheck exits "
-             "at the first cancellation (proved on the loop model of the code since fix 4b2120c, observed gone on the real goroutine; "
-             "a spinning loop is a monitored violation). Model tied to collect.go, "
+             "after Stop = panic; the full statement is proved for the proposed repair (fixed = true); both agent loops (healthCheck, reportUsagePeriodically with "
+             "sendUsageReport's pending / completion waits) reach `exited` within 6 of their own steps after cancel from every state, "
+             "for every client outcome script and select choice (agent_goroutines_exit_after_stop), observed gone on the real "
+             "goroutines after Agent.Stop at every prefix of scripted histories; a loop left behind is a monitored violation. Model tied to collect.go, "
              "collector_worker.go, direct_transmit.go by replaying every prefix of generated histories on the real components "
              "and comparing every observation, plus a monitor of the property on the implementation's own observations.",
         note="Partial by design: 'exits without panicking or leaving goroutines running' is observed (goroutine profile before Start vs after Stop, "
